@@ -52,6 +52,7 @@ typedef struct CredOpts {          /* one deliberate defect in what the prover p
 	int sub_pathlen[2];            /* -2 default */
 	int sub_ku[2];                 /* -1 default, else keyUsage bits */
 	int foreign_root;              /* 1: chain hangs under another key with the trusted root's name; 2: other name */
+	int root_in_chain;             /* the (foreign) root certificate itself is appended to the chain the prover sends */
 	int issuer_is_leaf;            /* leaf issued by an end-entity certificate inserted as "CA" */
 	int enc_foreign;               /* TLCP: encryption certificate issued by a foreign CA */
 } CredOpts;
@@ -83,7 +84,7 @@ typedef struct Round {
 
 enum {
 	F_NONE = 0, F_FLIP, F_DROP, F_DUP, F_SWAP, F_REPLAY, F_TRUNC, F_EXTEND,
-	F_INJECT, F_MUT, F_EVIL, F_CRASH, F_NKINDS
+	F_INJECT, F_MUT, F_EVIL, F_CRASH, F_AFAIL, F_NKINDS
 };
 extern const char *g_fault_names[F_NKINDS];
 
@@ -110,6 +111,7 @@ typedef struct Plan {
 	int64_t defect, defect_role, defect_arg;
 	/* entropy */
 	int64_t op, op_count, efail_node, efail_at, efail_rest, efail_errno, eburst_at, eburst_k, eburst_val;
+	int64_t afail_node, afail_at, afail_rest;   /* library malloc call afail_at of node afail_node (-2: of every node) returns NULL */
 	/* threads */
 	int64_t ntasks, preempt_mean, pct_d;
 	/* byz */
